@@ -145,7 +145,7 @@ def cmd_check(args):
             failed.append((u, ob, v))
     from pyvc import replay as rp
     handled_known = set()
-    MAX_REFUTE = int(os.environ.get("PYVC_MAX_REFUTE", "8"))
+    MAX_REFUTE = int(os.environ.get("PYVC_MAX_REFUTE", "4"))
     n_refuted = 0
     for u, ob, v in failed:
         kf = next((k for k in known_for_pid if k.get("obligation") == ob["name"]), None)
